@@ -67,8 +67,9 @@ def _policy(sx, sh, res, absorbing):
     return pol
 
 
-def discounted(sx, shape, gamma, cap=None):
-    sh = DISC[shape].with_(gamma=F(gamma))
+def discounted(sx, shape, gamma, cap=None, und=False):
+    """und=True: the skeletons of the undiscounted runs (several self-looping non-absorbing states) with a discount below 1"""
+    sh = (UND if und else DISC)[shape].with_(gamma=F(gamma))
     g = sh.gamma
     L = sh.slabels
     rew = sym_rewards(sx, sh, -1, 1)
@@ -147,3 +148,7 @@ def jobs(tier):
         for g in ['1/2', '9/10']:
             yield ('discounted', dict(shape=i, gamma=g), dict(o, cost=5))
         yield ('discounted', dict(shape=i, gamma='1/2', cap=2), o)
+    # discounts next to 1 on skeletons with several self-looping states: rows of (gamma P - I) have norm 1 - gamma
+    for i, sh in enumerate(UND):
+        for g in (['999/1000', '9/10'] if tier == 'quick' else ['999/1000', '995/1000', '99/100', '9/10', '1/2']):
+            yield ('discounted', dict(shape=i, gamma=g, und=True), dict(o, cost=5))
